@@ -13,6 +13,11 @@ TEXT = {
          "set construction order/duplicate-insensitive, contains/containsAll/containsAny/isEmpty, in/has/getAttr/is, like = declarative matcher for all patterns "
          "and strings); the model is the definition: any disagreement with Evaluator::interpret on the generated stream is a failing input.",
          "proof over a hand-written model; correspondence sampled through 6 routes (text, AST, EST, eval_expression, when, unless); error classes only"),
+ "C13": ("Lean theorems over the mirror of partial_interpret (residual arms, best-effort fall-back, projectable records, typed-unknown short circuits, partial stores, "
+         "unknown(), split, unknowns mapper), PartialResponse (decision table, may/must determining, reauthorize, concretize_request): table_sound (full: every completion of "
+         "the residual policies), pinterp_sound_partial (fragment, by induction), reauthorize_eq_fresh (given residual soundness); tied to the code by a differential run "
+         "(partial observable and reauthorized responses), plus the statement itself evaluated on the implementation for sampled substitutions.",
+         "proof over a hand-written model; pinterp soundness is proved on a fragment (full statement kept as a Prop); correspondence sampled (harness/src/c13.rs); residual shapes never compared"),
  "C07": ("Lean theorems over mirrors of the decimal/ip/datetime/duration parsers and operations (written-out recognisers + checked arithmetic); the model is the "
          "definition of 'exact': any disagreement with the real extension functions on generated strings/values is a failing input.",
          "proof over a hand-written model; std::net / chrono / regex are inside the implementation under check and are re-defined in the model"),
